@@ -14,7 +14,7 @@
    NOT MODELLED: which response goes out and the socket shutdown (no model of the response side
    here; judged on the real dispatcher by runner B). The READ_DISCONNECT gate that makes a
    rejection final is modelled in H1/Gate.v (section 8). *)
-From AV Require Import Lib.Base Gen.Consts H1.Chunked H1.ChunkedSpec H1.ChunkedProofs H1.PayloadDec
+From AV Require Import Lib.Base Gen.Consts Gen.H1Gate H1.Chunked H1.ChunkedSpec H1.ChunkedProofs H1.PayloadDec
   H1.PayloadDecProofs H1.Framing H1.FramingProofs H1.Codec H1.SimpleHead H1.CodecProofs
   H1.CodecSegProofs H1.Gate H1.GateProofs H1.ChunkedSound H1.GateExec H1.GateExecProofs H1.GateSegProofs
   Gen.ChunkedClasses H1.ChunkedGenProofs.
@@ -352,14 +352,64 @@ Theorem C01_gate_rejection_disconnects : forall head (ops : list gop),
 Proof. intros head ops g. apply (gexec_inv head _ _ ops gate0). intro H; contradiction. Qed.
 
 (* the executable gate run by the correspondence driver (H1/GateExec.v: leftover computed as the
-   code leaves it, read loop stops at MAX_BUFFER_SIZE) is an instance of the gate model, and the
+   code leaves it, read loop stops at the dispatcher's MAX_BUFFER_SIZE = H1_DISP_READ_CAP) is an instance of the gate model, and the
    clause holds for it *)
 Theorem C01_xgate_nothing_after_reject : forall head (ops1 ops2 : list xop) e,
-  let ex := xexec head H1_MAX_BUFFER_SIZE H1_MAX_PIPELINED_MESSAGES in
+  let ex := xexec head H1_MAX_BUFFER_SIZE H1_MAX_PIPELINED_MESSAGES H1_DISP_READ_CAP in
   g_rejected (ex ops1 gate0) = Some e ->
   g_msgs (ex (ops1 ++ ops2) gate0) = g_msgs (ex ops1 gate0) /\
   g_rejected (ex (ops1 ++ ops2) gate0) = Some e.
 Proof. intros head ops1 ops2 e ex H. apply xexec_nothing_after_reject. exact H. Qed.
+
+(* the read loop's early-return threshold is the constant dispatcher.rs binds to the name
+   MAX_BUFFER_SIZE through its `use` declarations (Gen/H1Gate.v, H1_DISP_READ_CAP, regenerated on
+   every run by tools/gen/h1_gate.py); the decoder's TooLarge threshold is decoder.rs's
+   (H1_MAX_BUFFER_SIZE).  The reader must not give up before the decoder does: *)
+Theorem C01_reader_cap_covers_decoder_limit : H1_MAX_BUFFER_SIZE <= H1_DISP_READ_CAP.
+Proof. vm_compute. discriminate. Qed.
+
+(* "the reader never stops reading before the head is complete": under every read schedule, as
+   long as no request has been rejected the unread remainder is below the read cap and the next
+   socket read is appended to the buffer (read_available does not take its early return).  With
+   C01_gate_segmentation below: every framed request whose head is shorter than the decoder limit
+   is delivered, however the bytes are cut. *)
+Theorem C01_reader_never_stops_early : forall head, HeadLaws head ->
+  forall (segs : list bytes) (seg : bytes),
+  let ex := xexec head H1_MAX_BUFFER_SIZE H1_MAX_PIPELINED_MESSAGES H1_DISP_READ_CAP in
+  let g := ex (read_ops segs) gate0 in
+  g_rejected g = None ->
+  lenN (g_read_buf g) < H1_DISP_READ_CAP /\ g_read_buf (ex [XRead seg] g) = g_read_buf g ++ seg.
+Proof.
+  intros head HL segs seg ex g H.
+  exact (reader_never_stops_early head H1_MAX_BUFFER_SIZE H1_MAX_PIPELINED_MESSAGES H1_DISP_READ_CAP eq_refl
+           C01_reader_cap_covers_decoder_limit eq_refl HL segs codec0 [] [] 0 seg I eq_refl H).
+Qed.
+
+(* why the premise is needed (general in the two thresholds): with a read cap below the decoder
+   limit, a gate holding an unfinished head of cap <= n < limit bytes is stuck for ever: nothing
+   delivered, nothing rejected (no 431), whatever is read / polled / dequeued afterwards *)
+Theorem C01_reader_starves_if_cap_below_limit : forall head maxb cap (ops : list xop) g,
+  g_read_disconnect g = false -> c_payload (g_codec g) = None -> head (g_read_buf g) = HPartial ->
+  cap <= lenN (g_read_buf g) -> lenN (g_read_buf g) < maxb ->
+  Forall (fun o => o <> XPeerClosed) ops ->
+  let g' := xexec head maxb H1_MAX_PIPELINED_MESSAGES cap ops g in
+  g_msgs g' = g_msgs g /\ g_rejected g' = g_rejected g /\ g_read_buf g' = g_read_buf g.
+Proof.
+  intros head maxb cap ops g H1 H2 H3 H4 H5 Hf g'.
+  destruct (reader_starves_below_cap head maxb H1_MAX_PIPELINED_MESSAGES cap ops g) as (_ & A & B & C);
+    [repeat split; assumption|exact Hf|auto].
+Qed.
+
+(* non-vacuity of both: a 40 000-byte unfinished head in 4 KiB reads.  With the dispatcher's cap
+   (= decoder limit) all of it is buffered; with the payload module's 32 768 the buffer stops
+   growing at 32 768 and the state satisfies the premises of the starvation theorem *)
+Example C01_example_reader :
+  let s := [71;69;84;32;47;97;32;72;84;84;80;47;49;46;49;13;10;120;58;32] ++ repeat 97 (N.to_nat 39980) in
+  let segs := [firstn (N.to_nat 16384) s; firstn (N.to_nat 16384) (skipn (N.to_nat 16384) s); skipn (N.to_nat 32768) s] in
+  let g := xexec (simple_head H1_MAX_HEADERS) H1_MAX_BUFFER_SIZE H1_MAX_PIPELINED_MESSAGES H1_DISP_READ_CAP (read_ops segs) gate0 in
+  let b := xexec (simple_head H1_MAX_HEADERS) H1_MAX_BUFFER_SIZE H1_MAX_PIPELINED_MESSAGES 32768 (read_ops segs) gate0 in
+  g_rejected g = None /\ lenN (g_read_buf g) = 40000 /\ g_rejected b = None /\ lenN (g_read_buf b) = 32768 /\ g_read_disconnect b = false /\ c_payload (g_codec b) = None /\ simple_head H1_MAX_HEADERS (g_read_buf b) = HPartial.
+Proof. vm_compute. repeat split. Qed.
 
 (* what the application sees THROUGH THE GATE does not depend on the segmentation, exactly outside
    the band of finding F19: under any read schedule [segs] (one read_available + one poll_request
@@ -368,7 +418,7 @@ Proof. intros head ops1 ops2 e ex H. apply xexec_nothing_after_reject. exact H. 
 Theorem C01_gate_segmentation : forall head, HeadLaws head -> head [] = HPartial ->
   forall segs : list bytes,
   NoBand head H1_MAX_BUFFER_SIZE (concat segs) ->
-  let g := xexec head H1_MAX_BUFFER_SIZE H1_MAX_PIPELINED_MESSAGES (read_ops segs) gate0 in
+  let g := xexec head H1_MAX_BUFFER_SIZE H1_MAX_PIPELINED_MESSAGES H1_DISP_READ_CAP (read_ops segs) gate0 in
   match onorm (run head H1_MAX_BUFFER_SIZE (run_fuel (concat segs)) codec0 (concat segs) []) with
   | ONeedMore c r ms => g_msgs g = ms /\ g_rejected g = None /\ g_codec g = c /\ g_read_buf g = r
   | OError EIo ms => g_rejected g = Some EIo /\ drop_last_body (g_msgs g) = ms
@@ -377,8 +427,8 @@ Theorem C01_gate_segmentation : forall head, HeadLaws head -> head [] = HPartial
   end.
 Proof.
   intros head HL H0 segs Hnb g.
-  pose proof (gate_reads_eq_feed head H1_MAX_BUFFER_SIZE H1_MAX_PIPELINED_MESSAGES eq_refl eq_refl HL
-                segs codec0 [] [] 0 I eq_refl) as A.
+  pose proof (gate_reads_eq_feed head H1_MAX_BUFFER_SIZE H1_MAX_PIPELINED_MESSAGES H1_DISP_READ_CAP eq_refl
+                C01_reader_cap_covers_decoder_limit eq_refl HL segs codec0 [] [] 0 I eq_refl) as A.
   pose proof (feed_eq_run head H1_MAX_BUFFER_SIZE HL segs eq_refl H0 Hnb) as E.
   rewrite <- E. change (gate_of codec0 [] [] 0) with gate0 in A. fold g in A.
   destruct (feed head H1_MAX_BUFFER_SIZE segs codec0 [] []) as [c r ms|e ms| |]; cbn [onorm agrees] in *.
